@@ -481,7 +481,7 @@ pub fn parse_multiline_text(
 /// Extract field option (e.g., "A" from ":50A:")
 pub fn extract_field_option(tag: &str) -> Option<char> {
     // Format is :NNO: where NN is field number and O is optional letter
-    if tag.len() >= 5 && tag.starts_with(':') && tag.ends_with(':') {
+    if tag.is_ascii() && tag.len() >= 5 && tag.starts_with(':') && tag.ends_with(':') {
         let inner = &tag[1..tag.len() - 1];
         if inner.len() == 3 && inner[0..2].chars().all(|c| c.is_numeric()) {
             return inner.chars().nth(2);
@@ -493,8 +493,8 @@ pub fn extract_field_option(tag: &str) -> Option<char> {
 /// Parse field with optional suffix (e.g., "20C" -> ("20", Some('C')))
 pub fn parse_field_with_suffix(input: &str) -> (String, Option<char>) {
     if let Some(last_char) = input.chars().last()
-        && last_char.is_alphabetic()
-        && input[..input.len() - 1].chars().all(|c| c.is_numeric())
+        && last_char.is_ascii_alphabetic()
+        && input[..input.len() - 1].chars().all(|c| c.is_ascii_digit())
     {
         return (input[..input.len() - 1].to_string(), Some(last_char));
     }
